@@ -118,6 +118,8 @@ def run_C01(ctx):
                 for k in random_composition(rng, len(ct)):
                     d.ops.append(f"data {hx(ct[i:i+k])}")
                     i += k
+                    if rng.random() < 0.15:
+                        d.ops.append("restate")          # get_state / from_state at an offset the encrypting side never exported at
             else:
                 d = Case("block", fam + "-dec", c.bs, c.w, c.key, c.iv, ops=enc_ops_for_path(rng, dp, mbs, c.w, ct))
         elif c.family == "buf":
@@ -129,6 +131,8 @@ def run_C01(ctx):
                 for k in random_composition(rng, len(ct), bias=[1, c.bs]):
                     d.ops.append(f"data {hx(ct[i:i+k])}")
                     i += k
+                    if rng.random() < 0.15:
+                        d.ops.append("restate")
         elif c.family == "stream":
             d = Case("stream", c.mode, c.bs, c.w, c.key, c.iv)
             i = 0
@@ -147,7 +151,7 @@ def run_C01(ctx):
         h = r2["H"][d.cid]
         if h is None:
             continue
-        if any(not l.startswith("out ") for l in h):
+        if any(not l.startswith("out ") and not (l == "ok" and i < len(d.ops) and d.ops[i] == "restate") for i, l in enumerate(h)):
             ctx.violation("predicate", f"decryption of the implementation's own ciphertext failed: {h}", [c, d], {"H": h})
             continue
         pt = outs(h)
@@ -514,6 +518,13 @@ def run_C12(ctx):
                 elif kind == "blocks":
                     x = rb(rng, nblocks_choice(rng, w, 2 * w + 2) * mbs)
                     a, b = f"blocks {hx(x)}", f"blocksb {hx(x)} {hx(rb_nz(rng, len(x)))}"
+                    # the in-place and the buffer-to-buffer entry points of the backend itself, reached through a caller-written
+                    # closure (`*_with_backend`): `*_block_inplace`, `*_par_blocks_inplace`, `*_tail_blocks_inplace` against
+                    # `*_par_blocks(InOut)` / `*_tail_blocks(InOutBuf)` into a dirty buffer
+                    if rng.random() < 0.35:
+                        a = f"backend {rng.choice([0, 1, 2, 4])} {hx(x)}"
+                    if rng.random() < 0.25:
+                        b = f"backend 3 {hx(x)}"
                 else:
                     x = rb(rng, rng.randrange(0, 3 * bs + 2))
                     a, b = f"oneshot {hx(x)}", f"oneshotb {hx(x)} {hx(rb_nz(rng, len(x)))}"
@@ -748,9 +759,42 @@ def run_C15(ctx):
             ct2 = ct[: j*mbs] + xor(ct[j*mbs:(j+1)*mbs], delta) + ct[(j+1)*mbs:]
             ext = rb(rng, rng.randrange(1, 3) * mbs)
             c = Case("block", mode, bs, w, key, iv,
-                     ops=["clone", "clone", f"blocks {hx(ct)}", "use 1", f"blocks {hx(ct2)}", "use 2", f"blocks {hx(ct + ext)}"],
+                     ops=["clone", "clone", blocks_op(rng, ct, 0.25), "use 1", blocks_op(rng, ct2, 0.25), "use 2", f"blocks {hx(ct + ext)}"],
                      j=j, delta=delta, n=n)
             cases.append(c)
+    # buffered CFB decryptor (its own bulk path): the same CFB propagation shape, over one long call or any cutting into calls
+    bufpairs = []
+    for _ in range(ctx.n(30, 400)):
+        bs, w = pick_matrix(rng, "cbc-enc", lambda x: x[0] >= 2)
+        key, iv = rb(rng, 16), rb(rng, bs)
+        n = rng.choice([rng.randrange(2, 6), rng.randrange(8, 20), 16, 17, 24, 25])
+        L = n * bs + rng.choice([0, rng.randrange(0, bs)])
+        ct = rb(rng, L)
+        j = rng.randrange(0, n)
+        delta = rb_nz(rng, bs)
+        if rng.random() < 0.5:
+            dl = bytearray(bs)
+            dl[rng.randrange(bs)] = 1 << rng.randrange(8)
+            delta = bytes(dl)
+        ct2 = ct[: j*bs] + xor(ct[j*bs:(j+1)*bs], delta) + ct[(j+1)*bs:]
+        r = rng.random()
+        if r < 0.4:
+            parts = [L]
+        elif r < 0.6:
+            k0 = rng.randrange(0, bs)
+            parts = [k0, L - k0]
+        else:
+            parts = random_composition(rng, L, zero_p=0.1, bias=[1, bs, 8 * bs, 9 * bs, 16 * bs])
+        def pieces(x):
+            out, o = [], 0
+            for k in parts:
+                out.append(f"data {hx(x[o:o+k])}")
+                o += k
+            return out
+        ca = Case("buf", "cfbbuf-dec", bs, w, key, iv, ops=pieces(ct), role="buf-a", j=j, delta=delta, n=n)
+        cb = Case("buf", "cfbbuf-dec", bs, w, key, iv, ops=pieces(ct2), role="buf-b")
+        bufpairs.append((ca, cb))
+        cases += [ca, cb]
     # enc direction causality
     for mode in ["cbc-enc", "cfb-enc", "pcbc-enc", "ige-enc", "cfb8-enc", "ofb-enc"]:
         for _ in range(ctx.n(10, 150)):
@@ -779,9 +823,31 @@ def run_C15(ctx):
             cases += [ca, cb]
     res = ctx.run(cases, layers=())
     ctx.no_panic(cases, res)
+    for (ca, cb) in bufpairs:
+        ha, hb = res["H"][ca.cid], res["H"][cb.cid]
+        if ha is None or hb is None:
+            continue
+        A, B = outs(ha), outs(hb)
+        bs, j, delta, n = ca.bs, ca.meta["j"], ca.meta["delta"], ca.meta["n"]
+        bad = None
+        if A is None or B is None or len(A) != len(B):
+            bad = "outputs missing or of different length"
+        else:
+            for i in range(0, (len(A) + bs - 1) // bs):
+                da = xor(A[i*bs:(i+1)*bs], B[i*bs:(i+1)*bs])
+                if i == j and da != delta:
+                    bad = f"block {i} does not flip exactly the altered bits"
+                elif i == j + 1 and len(da) == bs and da == bytes(bs):
+                    bad = f"block {i} (after the altered one) is not garbled"
+                elif i not in (j, j + 1) and da != bytes(len(da)):
+                    bad = f"block {i} changed (no re-synchronisation)" if i > j else f"block {i} before the altered one changed"
+                if bad:
+                    break
+        if bad:
+            ctx.violation("predicate", f"buffered CFB decryptor bs={bs} w={ca.w} n={n} j={j}: {bad}", [ca, cb], {"H_a": ha, "H_b": hb})
     for c in cases:
         h = res["H"][c.cid]
-        if h is None:
+        if h is None or c.family == "buf":
             continue
         if c.family == "stream":
             p = c.meta.get("partner")
@@ -790,8 +856,14 @@ def run_C15(ctx):
             hp = res["H"][p.cid]
             if hp is None:
                 continue
+            if not (h and hp and h[0].startswith("out ") and hp[0].startswith("out ")):
+                ctx.violation("infrastructure", f"{c.mode} bs={c.bs} w={c.w}: no output from the implementation for this case: {h[:1]!r}", [c, p], {"H_a": h, "H_b": hp})
+                continue
             a, b = payload(h[0]), payload(hp[0])
             j, d = c.meta["j"], c.meta["d"]
+            if len(a) <= j or len(b) != len(a):
+                ctx.violation("predicate", f"{c.mode} bs={c.bs}: output shorter than the input", [c, p], {"H_a": h, "H_b": hp})
+                continue
             exp = a[:j] + bytes([a[j] ^ d]) + a[j+1:]
             if b != exp:
                 ctx.violation("predicate", f"{c.mode} bs={c.bs}: flipping ciphertext byte {j} by {d:#x} changed the plaintext elsewhere", [c, p], {"H_a": h, "H_b": hp})
@@ -942,8 +1014,15 @@ def run_C16(ctx):
             if rng.random() < 0.35:
                 # `Clone::clone_from`: a second instance with a history of its own (so that any field `clone_from` forgets to
                 # overwrite is stale) is overwritten with a copy of the original, then used as the clone
-                hpre = history_ops(rng, fam, mode, bs, w, rng.randrange(1, 4))
-                pre = ["clone", "use 1"] + hpre + ["clonefrom 0", "use 0"]
+                hpre = history_ops(rng, fam, mode, bs, w, rng.randrange(0, 4))
+                if rng.random() < 0.5:
+                    # ... the overwritten instance was constructed separately, under another key and another IV: every field
+                    # of the source (cipher, nonce / IV, counters, buffer, position) has to arrive
+                    key2 = rb(rng, 16)
+                    iv2 = stream_iv(rng, mode, bs, key2)[0] if fam in ("stream", "core") else rb_nz(rng, ivlen(mode, bs))
+                    pre = [f"fresh {hx(key2)} {hx(iv2)}", "use 1"] + hpre + ["clonefrom 0", "use 0"]
+                else:
+                    pre = ["clone", "use 1"] + hpre + ["clonefrom 0", "use 0"]
                 x = Case(fam, mode, bs, w, key, iv, ops=h1 + pre + inter, tags=[None] * (len(h1) + len(pre)) + tags, role="interleaved-clonefrom")
             else:
                 x = Case(fam, mode, bs, w, key, iv, ops=h1 + ["clone"] + inter, tags=[None] * (len(h1) + 1) + tags, role="interleaved")
